@@ -15,7 +15,8 @@ RULE = (
     "fields of width 1-3 x the 5 line-delimiter settings, read through fixed_rows(io.StringIO(text, newline='')). "
     "Hypothesis: longer well-formed files (records over a wider alphabet incl. blanks and non-ASCII, joined by "
     "permitted delimiters, final one optional) unchanged and with one character deleted / inserted / replaced at "
-    "every offset, read from a stream and by path with the declared encoding. Oracle: DataFormatError, or rows with "
+    "every offset, read from a stream and by path with the declared encoding; long well-formed files whose CR LF / "
+    "CR / LF delimiters start at, before or after multiples of typical I/O block sizes. Oracle: DataFormatError, or rows with "
     "exact widths whose concatenation interleaved with permitted delimiters (final optional) equals the input; "
     "inputs of the well-formed language must be accepted with exactly their records. Non-trivial: the input "
     "contains CR/LF or yields >= 2 rows; enumerated cases are distinct by construction, generated ones by hash."
@@ -170,7 +171,7 @@ def _exhaustive_shard(args):
 
 
 # -- hypothesis: longer files with one edit ----------------------------------------
-ALPHABET = "ab Z9-_.,;äß€中"
+ALPHABET = "ab Z9-_.,;äß€中%{}\\'\"\t"
 
 
 @st.composite
@@ -227,7 +228,97 @@ def check_file_case(sub, case):
             shutil.rmtree(tmpdir, ignore_errors=True)
 
 
+# -- long well-formed files whose delimiters straddle typical buffer sizes -------------------------------------------
+def _boundary_cases(thorough):
+    """Well-formed files of some ten thousand characters in which a CR LF (or a lone CR / LF) delimiter starts exactly
+    at, just before or just after a multiple of a typical I/O block size."""
+    cases = []
+    targets = (4096, 8192, 16384) if not thorough else (512, 1024, 4096, 8192, 16384, 32768, 65536)
+    for target in targets:
+        for total in (1, 2, 3, 5, 8):
+            for delta in (-2, -1, 0, 1):
+                for critical in ("\r\n", "\r", "\n"):
+                    for setting in ("any",) + ({"\r\n": ("crlf",), "\r": ("cr",), "\n": ("lf",)}[critical]):
+                        cases.append({"target": target, "total": total, "delta": delta, "critical": critical,
+                                      "setting": setting})
+    return cases
+
+
+def _boundary_text(case):
+    total, critical, setting = case["total"], case["critical"], case["setting"]
+    start = case["target"] - 1 + case["delta"]  # offset at which the critical delimiter starts
+    filler = critical if setting != "any" else "\n"
+    unit = total + len(filler)
+    rows_before = (start - total) // unit
+    # under 'any' the slack is taken up by CR LF delimiters (one character more than LF each)
+    slack = (start - total) - rows_before * unit
+    if setting != "any" and slack:
+        return None
+    if slack > rows_before:
+        return None
+    text = ""
+    records = []
+    for index in range(rows_before):
+        record = ("%d" % (index % 10)) * total
+        records.append(record)
+        text += record + ("\r\n" if index < slack else filler)
+    record = "x" * total
+    records.append(record)
+    text += record
+    assert len(text) == start, (len(text), start)
+    text += critical
+    for index in range(3):
+        record = "yz"[index % 2] * total
+        records.append(record)
+        text += record + filler
+    return text, records
+
+
+def check_boundary(sub, case):
+    built = _boundary_text(case)
+    if built is None:
+        return
+    text, records = built
+    widths = [case["total"]] if case["total"] < 3 else [1, case["total"] - 1]
+    fields = [("f%d" % i, w) for i, w in enumerate(widths)]
+    sub.evaluations += 1
+    label = "%s|%s" % (case["setting"], {"\r\n": "crlf", "\r": "cr", "\n": "lf"}[case["critical"]])
+    try:
+        rows = list(rowio.fixed_rows(io.StringIO(text, newline=""), "utf-8", fields, SETTINGS[case["setting"]]))
+    except errors.DataFormatError as error:
+        sub.fail("C13|boundary|wellformed-rejected|%s" % label, case,
+                 "well-formed input of %d characters whose %r delimiter starts at offset %d was rejected: %s" % (
+                     len(text), case["critical"], case["target"] - 1 + case["delta"], error))
+        return
+    except Exception as error:
+        sub.fail("C13|boundary|exc|%s|%s" % (type(error).__name__, label), case, repr(error))
+        return
+    if rows != [split_row(r, widths) for r in records]:
+        wrong = next((i for i, (a, b) in enumerate(zip(rows, records)) if "".join(a) != b), min(len(rows), len(records)))
+        sub.fail("C13|boundary|wrong-rows|%s" % label, case,
+                 "input of %d characters: row %d read as %r, expected %r (%d rows read, %d expected)" % (
+                     len(text), wrong, rows[wrong] if wrong < len(rows) else None,
+                     records[wrong] if wrong < len(records) else None, len(rows), len(records)))
+
+
+def _boundary_shard(args):
+    from vlib.runner import Sub
+
+    index, count, cases = args
+    sub = Sub("block-boundary")
+    for case in cases[index::count]:
+        check_boundary(sub, case)
+    evals = sub.evaluations
+    sub.evaluations = 0
+    sub.bulk(evals, evals, {"block-boundary": evals})
+    if index == 0 and cases:
+        sub.samples.append(dict(cases[0], note="long file, delimiter at a block boundary"))
+    return sub
+
+
 def run(ctx):
+    boundary = _boundary_cases(not ctx.quick)
+    ctx.par(_boundary_shard, [(i, ctx.workers, boundary) for i in range(ctx.workers)])
     max_len = ctx.n(7, 9)
     shards = ctx.workers * 4
     ctx.par(_exhaustive_shard, [(i, shards, max_len) for i in range(shards)])
@@ -235,6 +326,9 @@ def run(ctx):
 
 
 def replay(sub, case):
+    if "target" in case:
+        check_boundary(sub, case)
+        return
     if "edit" in case:
         check_file_case(sub, case)
     else:
